@@ -202,6 +202,46 @@ def run(rd, emit, log, enum_values, ti_default):
     body += 'Definition f_sb_cbguards : list (string * bool) := %s.\n\n' % blist(
         ['(%s, %s)' % (coqs(n), 'true' if g else 'false') for n, g in cbg])
 
+    # ---------------------------------------------------------------- body scan: does a native call a mutator on something it did not create
+    MUT = re.compile(r'(\b\w+)\s*(?:->|\.)\s*(Set|Add|Remove|Clear|Insert|Resize|Freeze|SetFieldByName|SetField|ModifyAttribute|'
+                     r'RestoreAttribute|Register|Unregister|Activate|Deactivate|ProcessCheckResult|CopyTo|NotifyField|SetAttribute)\s*\(')
+    EXT = re.compile(r'\b(ScriptGlobal::Set|Application::(?:Exit|RequestShutdown|RequestRestart)|Utility::(?:MkDir|MkDirP|Remove|RemoveDirRecursive|'
+                     r'SaveJsonFile|CopyFile|RenameFile|Sleep)|std::ofstream|std::fstream|fopen|unlink|rename|popen|fork|execvpe?|Process::|'
+                     r'ConfigObjectUtility::|ApplyRule::AddRule|ActivationContext|Loader::|AddObject|putenv|setenv)\b')
+    scan = []
+    for n in sorted(funcs):
+        lib, safe, cname, rel = funcs[n]
+        short = cname.split('::')[-1]
+        b = None
+        if short:
+            cands = [rel] + [r for r in sorted(texts) if r != rel and r.endswith('.cpp')] if '::' in cname else [rel]
+            for r in cands:
+                t = texts.get(r, '')
+                if '::' in cname:
+                    b = fn_body(t, r'\b' + re.escape(cname) + r'\s*\(')
+                else:
+                    b = fn_body(t, r'\bstatic\s+[\w:<>&\s\*]+?\b' + re.escape(short) + r'\s*\(')
+                if b is not None:
+                    break
+        if b is None:
+            scan.append((n, False, False))
+            continue
+        dirty = bool(EXT.search(b))
+        for m in MUT.finditer(b):
+            recv = m.group(1)
+            fresh = re.search(r'\b' + re.escape(recv) + r'\s*(?:=\s*new\b|\(\s*new\b|=\s*\w+\s*->\s*ShallowClone)', b) or \
+                re.search(r'\b(?:ArrayData|DictionaryData|std::\w+(?:<[^;]*>)?)\s+' + re.escape(recv) + r'\b', b)
+            if not fresh:
+                dirty = True
+        scan.append((n, True, dirty))
+    body += '(* (registered name, (C++ body located, body calls a mutator on an object it did not create / touches files, processes, registries)) *)\n'
+    body += 'Definition f_sb_body_scan : list (string * (bool * bool)) := %s.\n\n' % blist(
+        ['(%s, (%s, %s))' % (coqs(n), 'true' if l else 'false', 'true' if d else 'false') for n, l, d in scan])
+    nsafe = [n for n in funcs if funcs[n][1]]
+    located = [n for n, l, d in scan if l and funcs[n][1]]
+    log.append('C19: body scan: %d of %d side-effect-free functions located; dirty safe ones: %s' % (
+        len(located), len(nsafe), ', '.join(n for n, l, d in scan if l and d and funcs[n][1]) or 'none'))
+
     # ---------------------------------------------------------------- no_user_view fields
     ti_parent, ti_hidden = {}, {}
     for f in sorted(glob.glob(os.path.join(REPO, 'lib', '**', '*.ti'), recursive=True)):
@@ -303,6 +343,16 @@ def run(rd, emit, log, enum_values, ti_default):
     fh = strip_comments(rd('lib/base/function.hpp'))
     B('f_sb_function_default_unsafe', bool(re.search(r'bool\s+side_effect_free\s*=\s*false', fh)),
       'Function constructor: side_effect_free defaults to false')
+
+    # does the console handler hand the result back with ALL fields (Serialize(exprResult, 0)), or does it pass its
+    # sandboxed flag on so that no_user_view fields are left out
+    ch = strip_comments(rd('lib/remote/consolehandler.cpp'))
+    ms = re.search(r'Serialize\s*\(\s*exprResult\s*,([^;{}]*?)\)\s*\}', ch)
+    sargs = split_args(ms.group(1)) if ms else []
+    ser = strip_comments(rd('lib/base/serializer.cpp'))
+    filt = bool(re.search(r'HideNoUserView\s*&&\s*\(\s*field\.Attributes\s*&\s*FANoUserView\s*\)\s*\)\s*continue', ser))
+    body += '(* ConsoleHandler::ExecuteScriptHelper serialises the result without leaving out no_user_view fields *)\n'
+    body += 'Definition f_sb_console_returns_hidden : bool := %s.\n' % ('false' if (len(sargs) >= 2 and sargs[1] == 'sandboxed' and filt) else 'true')
 
     # ---------------------------------------------------------------- frames the product creates for user-supplied code
     frames = []
